@@ -98,8 +98,23 @@ pub fn run(args: &Args) {
         }
         let active = rng.below(nsheets as u64) as u32;
         book.set_active_sheet(active);
-        let mut grids: Vec<std::collections::BTreeMap<(u32, u32), String>> = vec![Default::default(); nsheets as usize];
+        // tab selection (grouped tabs, or the state a file had when it was saved by Excel) is independent of the active sheet
         let mut feats = std::collections::BTreeSet::new();
+        if nsheets > 1 && rng.chance(1, 2) {
+            for si in 0..nsheets as usize {
+                if rng.chance(1, 2) {
+                    let views = book.get_sheet_mut(&si).unwrap().get_sheet_views_mut();
+                    if views.get_sheet_view_list().is_empty() {
+                        views.add_sheet_view_list_mut(SheetView::default());
+                    }
+                    views.get_sheet_view_list_mut()[0].set_tab_selected(true);
+                    if si as u32 != active {
+                        feats.insert("tab-selected-on-inactive-sheet".to_string());
+                    }
+                }
+            }
+        }
+        let mut grids: Vec<std::collections::BTreeMap<(u32, u32), String>> = vec![Default::default(); nsheets as usize];
         for si in 0..nsheets as usize {
             let ncells = if si as u32 == active { rng.range(1, 14) } else { rng.range(0, 4) };
             let (w, h) = (rng.range(1, 6), rng.range(1, 7));
